@@ -484,11 +484,16 @@ impl Machine {
         new_vm.global_vals = self.global_vals.clone();
         new_vm.arrays = self.arrays.clone();
 
+        let old_skeleton = self
+            .prog
+            .get_dsp_state_skeleton()
+            .cloned()
+            .expect("dsp function not found");
+        // The state storage is sized when dsp first runs: before that it is shorter than the
+        // layout the patch plan is computed from.
+        let old_layout_size = old_skeleton.total_size() as usize;
         let patch_plan = state_tree::build_state_storage_patch_plan(
-            self.prog
-                .get_dsp_state_skeleton()
-                .cloned()
-                .expect("dsp function not found"),
+            old_skeleton,
             new_vm
                 .prog
                 .get_dsp_state_skeleton()
@@ -496,8 +501,13 @@ impl Machine {
                 .expect("dsp function not found"),
         );
         if let Some(plan) = patch_plan {
-            new_vm.global_states.rawdata =
-                state_tree::apply_state_storage_patch_plan(&self.global_states.rawdata, &plan);
+            new_vm.global_states.rawdata = if self.global_states.rawdata.len() < old_layout_size {
+                let mut old_data = self.global_states.rawdata.clone();
+                old_data.resize(old_layout_size, 0);
+                state_tree::apply_state_storage_patch_plan(&old_data, &plan)
+            } else {
+                state_tree::apply_state_storage_patch_plan(&self.global_states.rawdata, &plan)
+            };
         } else {
             log::info!("No state structure change detected. Just copies buffer");
             new_vm.global_states.rawdata = self.global_states.rawdata.clone();
